@@ -290,10 +290,18 @@ def run(prog: Program, rep, tier="quick"):
     rep.ob("R11.3", IDX, iw.qual, "trailer (digest, or 20 zero bytes under skipHash) written on every normal path",
            bool(zero) and bool(shaw) and bool(starts) and not must_pass(g, [g.exit_normal], set(zero) | set(shaw), start=starts),
            "", iw.node.lineno)
-    skip = [i for i, n in g.nodes.items() if n.kind == "test" and "skip_hash" in norm(n.ast)]
+    skip = {i: "true" for i, n in g.nodes.items() if n.kind == "test" and "skip_hash" in norm(n.ast)}
+    # a local that is None exactly when skipHash is set (`w = None if self._skip_hash else Writer(f)`) carries the option too
+    derived = {x.targets[0].id for x in ast.walk(iw.node) if isinstance(x, ast.Assign) and isinstance(x.targets[0], ast.Name) and isinstance(x.value, ast.IfExp)
+               and "skip_hash" in norm(x.value.test) and not isinstance(x.value.test, ast.UnaryOp)
+               and isinstance(x.value.body, ast.Constant) and x.value.body.value is None}
+    for i, n in g.nodes.items():
+        if n.kind == "test" and isinstance(n.ast, ast.Compare) and len(n.ast.ops) == 1 and isinstance(n.ast.left, ast.Name) and n.ast.left.id in derived \
+                and isinstance(n.ast.comparators[0], ast.Constant) and n.ast.comparators[0].value is None:
+            skip[i] = "true" if isinstance(n.ast.ops[0], ast.Is) else "false"
     # the zero trailer only under skip_hash
     from sa.flow import reach
-    r = reach(g, [g.entry], include_srcs=True, edge_ok=lambda a_, b, l: not (a_ in skip and l == "true"))
+    r = reach(g, [g.entry], include_srcs=True, edge_ok=lambda a_, b, l: not (a_ in skip and l == skip[a_]))
     rep.ob("R11.3", IDX, iw.qual, "zero trailer only when skipHash is configured", bool(skip) and not any(z in r for z in zero), "", iw.node.lineno)
     # ---- R11.4
     wd = fn("write_index_dict")
